@@ -709,6 +709,7 @@ func (g *Gtp5g) CreateFAR(lSeid uint64, req *ie.IE) error {
 func (g *Gtp5g) UpdateFAR(lSeid uint64, req *ie.IE) error {
 	var farid uint64
 	var attrs []nl.Attr
+	var newAct *report.ApplyAction
 
 	ies, err := req.UpdateFAR()
 	if err != nil {
@@ -741,7 +742,7 @@ func (g *Gtp5g) UpdateFAR(lSeid uint64, req *ie.IE) error {
 				Type:  gtp5gnl.FAR_APPLY_ACTION,
 				Value: nl.AttrU16(act.Flags),
 			})
-			g.applyAction(lSeid, int(farid), act)
+			newAct = &act
 		case ie.UpdateForwardingParameters:
 			xs, err := i.UpdateForwardingParameters()
 			if err != nil {
@@ -770,7 +771,27 @@ func (g *Gtp5g) UpdateFAR(lSeid uint64, req *ie.IE) error {
 	}
 
 	oid := gtp5gnl.OID{lSeid, farid}
-	return gtp5gnl.UpdateFAROID(g.client, g.link.link, oid, attrs)
+	// packets buffered for this FAR are released (or discarded) when its
+	// action changes - after the update has been applied, so that they go
+	// out through the forwarding parameters the FAR has from now on (the
+	// tunnel often arrives in the very request that switches to FORW)
+	wasBuffering := false
+	if newAct != nil {
+		far, err1 := gtp5gnl.GetFAROID(g.client, g.link.link, oid)
+		if err1 != nil {
+			g.log.Errorf("applyAction err: %+v", err1)
+		} else {
+			wasBuffering = far.Action&report.APPLY_ACT_BUFF != 0
+		}
+	}
+	err = gtp5gnl.UpdateFAROID(g.client, g.link.link, oid, attrs)
+	if err != nil {
+		return err
+	}
+	if wasBuffering {
+		g.applyAction(lSeid, int(farid), *newAct)
+	}
+	return nil
 }
 
 func (g *Gtp5g) RemoveFAR(lSeid uint64, req *ie.IE) error {
@@ -1630,12 +1651,10 @@ func (g *Gtp5g) HandleReport(handler report.Handler) {
 
 func (g *Gtp5g) applyAction(lSeid uint64, farid int, action report.ApplyAction) {
 	oid := gtp5gnl.OID{lSeid, uint64(farid)}
+	// called once the FAR has been updated and only if it was buffering before
 	far, err := gtp5gnl.GetFAROID(g.client, g.link.link, oid)
 	if err != nil {
 		g.log.Errorf("applyAction err: %+v", err)
-		return
-	}
-	if far.Action&report.APPLY_ACT_BUFF == 0 {
 		return
 	}
 	switch {
